@@ -567,7 +567,13 @@ static void after_op(World &w, const Op &op, int rc) {
             // a delete / remove call that was handed something the addressed container does not hold (an entity of another block, a section
             // that is not a child, a property of another section ...): whatever it answers, nothing else may have been harmed
             w.cnt.inc("delete.misdirected_checked");
-            if (!node_equal(w.last, doc, where)) w.fail(w.expect_unchanged, "a delete/remove call that designated an entity the addressed container does not hold (" + w.arg_class + ") changed the document at " + where);
+            if (!node_equal(w.last, doc, where)) {
+                // an implementation that deletes the designated entity all the same (wherever it lives) still satisfies C04 - provided that is all it did
+                Node expect = w.last; std::set<std::string> ids; std::string wh2;
+                if (!w.misdirected_target.empty() && collect_subtree_ids(expect, w.misdirected_target, ids)) { remove_ids(expect, ids); }
+                if (!ids.empty() && node_equal(expect, doc, wh2)) w.cnt.inc("delete.misdirected_deleted_the_designated_entity");
+                else w.fail(w.expect_unchanged, "a delete call that designated an entity the addressed container does not hold (" + w.arg_class + ") changed the document at " + where);
+            }
         }
         if (!w.del_victim.empty() && (rc == 1 || !w.del_result) && !node_equal(w.last, doc, where)) {
             // a delete that threw or reported "nothing removed" and changed the document all the same stopped half way: the victim is still
@@ -688,7 +694,7 @@ void World::run(const Plan &p, const std::string &d) {
     for (size_t i = 0; i < plan.ops.size() && !failed() && !stop; i++) {
         cur = (int) i;
         const Op &op = plan.ops[i];
-        arg_class.clear(); must_succeed.clear(); expect_unchanged.clear();
+        arg_class.clear(); must_succeed.clear(); expect_unchanged.clear(); misdirected_target.clear();
         evh.str(op_to_line(op));
         progress((int) i, op.kind);
         uint64_t fileless = is_open ? 0 : 1;
@@ -798,12 +804,14 @@ int World::exec_session(const Op &op) {
     case OP_flush_fault: {
         if (!is_open || mode != 0) return 2;
         FaultKind k = (FaultKind) (1 + ((unsigned) op.a[0]) % 4);
-        disk_arm_fault(k, ((unsigned) op.a[1]) % 24);
+        bool persistent = (op.a[2] & 1) != 0 && (k == F_EIO || k == F_ENOSPC);      // the disk stays full / broken for the rest of the call
+        disk_arm_fault(k, ((unsigned) op.a[1]) % 24, persistent);
         bool ok = false, threw = false;
         try { ok = f.flush(); } catch (const std::exception &) { threw = true; }
         bool fired = disk_disarm_fault();
         cnt.inc(std::string("fault.flush.") + (k == F_EIO ? "eio" : k == F_ENOSPC ? "enospc" : k == F_SHORT ? "short" : "eintr") + (fired ? ".fired" : ".configured_only"));
-        arg_class = std::string("fault=") + std::to_string((int) k) + (fired ? ",fired" : ",not-fired");
+        arg_class = std::string("fault=") + std::to_string((int) k) + (fired ? ",fired" : ",not-fired") + (persistent ? ",persistent" : "");
+        if (fired && persistent) cnt.inc("fault.flush.persistent");
         if (ok && !threw) {
             // flush() claims success: the image on disk must be complete right now (C11.flush-honest)
             cnt.inc("flush.ok");
